@@ -293,3 +293,48 @@ func VerifBatchMembership() {
 	b.Close()
 	zzverif.Cover("batch_membership_done")
 }
+
+// A bystander leaves while the fan-out is waiting for a slow subscriber (the broadcaster's harness of the same name):
+// Z reads promptly and leaves, A starts reading late (more events outstanding than its buffer holds), S1 and S2 read
+// promptly; Z's departure during the wait takes nothing from, and duplicates nothing for, the subscribers behind A:
+// A, S1 and S2 receive every event exactly once, in the order the events became due.
+//
+//verif:harness prop=C10 name=batch_bystander_leaves_while_waiting threads=14 sched=delay preempt=1 t_preempt=2 unwind=20 witness=lenient
+func VerifBatchBystanderLeaves() {
+	start := zzverif.TimeFromNanos(1_000_000_000)
+	clk := zzverifstubs.NewClock(start)
+	b := New[int, int](vInterval)
+	b.WithClock(clk)
+	z := &vSub{ch: make(chan int)}
+	a := &vSub{ch: make(chan int)}
+	s1 := &vSub{ch: make(chan int)}
+	s2 := &vSub{ch: make(chan int)}
+	ctxZ, leaveZ := context.WithCancel(context.Background())
+	b.Subscribe(ctxZ, z.ch)
+	b.Subscribe(context.Background(), a.ch, s1.ch, s2.ch)
+	go vConsume(z)
+	go vConsume(s1)
+	go vConsume(s2)
+	n := 4 // A's buffer (2, scaled from 50) + 1 held by its forwarder: the 4th event waits
+	if !zzverif.Symbolic() {
+		n += 48 // native replay runs with the real buffer of 50
+	}
+	for i := 1; i <= n; i++ {
+		b.Batch(i, 100+i)
+		clk.Advance(vInterval)
+		zzverif.WaitQuiescent()
+	}
+	// the fan-out of the last event is waiting for room in A's buffer
+	leaveZ()
+	zzverif.WaitQuiescent()
+	go vConsume(a) // A catches up
+	zzverif.WaitQuiescent()
+	for _, c := range []*vSub{a, s1, s2} {
+		zzverif.Assert(len(c.got) == n, "every_staying_subscriber_gets_every_event_once")
+		for i := 0; i < len(c.got) && i < n; i++ {
+			zzverif.Assert(c.got[i] == 101+i, "staying_subscriber_order")
+		}
+	}
+	b.Close()
+	zzverif.Cover("batch_bystander_leaves_done")
+}
